@@ -332,12 +332,14 @@ def module_traces(pid, chk, cases, prefix="m"):
 
 
 # ---------------------------------------------------------------------- C10: literal sets
-LIT_ALPHABET = ["'", '"', "\\", "\n", ",", " ", "a", "é", "\U0001F600", "}", ".", "b", "{", "\t", " "]
+# (a lone surrogate is what json.loads makes of an unpaired \\ud83d escape: legal JSON, e.g. a truncated emoji)
+LIT_ALPHABET = ["'", '"', "\\", "\n", ",", " ", "a", "é", "\U0001F600", "}", ".", "b", "{", "\t", " ", "\ud83d", "\udc00"]
 COLLIDE = ["a", "a,a", "a,a,a", "...", ",", "a,", ",a"]
 
 
 def lit_string(rng, length):
-    return "".join(rng.choice(LIT_ALPHABET) for _ in range(length))
+    # as JSON data: a high surrogate directly followed by a low one IS one non-BMP character once it went through a JSON document
+    return json.loads(json.dumps("".join(rng.choice(LIT_ALPHABET) for _ in range(length))))
 
 
 def literal_cases(chk, n):
